@@ -272,6 +272,10 @@ func candidates(c cond, dflt string) []string {
 		if len(dflt) > n {
 			return []string{dflt}
 		}
+		if n >= 1000 {
+			// not taken: a probe that long would be about record size (C07/C11), not about the configuration
+			return []string{dflt}
+		}
 		return []string{strings.Repeat("a", n+1)}
 	case "!!len-lt":
 		n, _ := strconv.Atoi(c.Val)
